@@ -109,15 +109,15 @@ func (k Keeper) IterateConsensusStates(
 	for ; iterator.Valid(); iterator.Next() {
 		key := iterator.Key()
 
-		keySplit := strings.Split(string(key), "/")
-		// consensus key is in the format "clients/<chainName>/consensusStates/<height>"
-		if len(keySplit) != 4 || keySplit[2] != string(host.KeyConsensusStatePrefix) {
+		// consensus key is in the format "clients/<chainName>/consensusStates/<height>"; the height is 16 binary
+		// bytes which may contain '/', so only the chain name is split off and the rest is matched by length
+		keySplit := strings.SplitN(string(key), "/", 3)
+		consPrefix := host.KeyConsensusStatePrefix + "/"
+		if len(keySplit) != 3 || !strings.HasPrefix(keySplit[2], consPrefix) || len(keySplit[2]) != len(consPrefix)+16 {
 			continue
 		}
 		chainName := keySplit[1]
-		//revinum := sdk.BigEndianToUint64(key[35:43])
-		//revihei := sdk.BigEndianToUint64(key[44:])
-		heightBytes := keySplit[3]
+		heightBytes := keySplit[2][len(consPrefix):]
 		revisionUint64 := binary.BigEndian.Uint64([]byte(heightBytes[:8]))
 		heightUint64 := binary.BigEndian.Uint64([]byte(heightBytes[8:]))
 		height := types.MustParseHeight(fmt.Sprintf("%d-%d", revisionUint64, heightUint64))
